@@ -550,7 +550,7 @@ Qed.
 
 (* slot i leaves the game: EMPTY, no heap entry; it must be on no list *)
 Lemma inv_timer_clear : forall i g st, inv st -> occ_all (QTimer i) st = 0 ->
-  (forall t, t_state (g t) = Empty /\ t_uid (g t) = t_uid t /\ t_exp (g t) = None) ->
+  (forall t, nth_error (timers st) i = Some t -> t_state (g t) = Empty /\ t_uid (g t) = t_uid t /\ t_exp (g t) = None) ->
   inv (set_timers (upd_nth i g (timers st)) st) /\
   (forall t, nth_error (timers st) i = Some t -> t_state t <> Empty -> ~ live (set_timers (upd_nth i g (timers st)) st) 1 (t_uid t)).
 Proof.
@@ -565,20 +565,20 @@ Proof.
   split.
   - apply inv_set_timers; [exact I| | |].
     + split; [|split].
-      * intros j t' H E. destruct (N j t' H) as [[_ A]|[_ (t & A & ->)]]; [eauto|]. destruct (G t) as (_ & _ & X). congruence.
-      * intros j t' H. destruct (N j t' H) as [[_ A]|[_ (t & A & ->)]]; [eauto|]. destruct (G t) as (_ & X & _). rewrite X. eauto.
+      * intros j t' H E. destruct (N j t' H) as [[_ A]|[_ (t & A & ->)]]; [eauto|]. destruct (G t A) as (_ & _ & X). congruence.
+      * intros j t' H. destruct (N j t' H) as [[_ A]|[_ (t & A & ->)]]; [eauto|]. destruct (G t A) as (_ & X & _). rewrite X. eauto.
       * intros a b ta tb Ha Hb Sa Sb E.
-        destruct (N a ta Ha) as [[Na A]|[_ (t & A & ->)]]; [|destruct (G t) as (X & _); congruence].
-        destruct (N b tb Hb) as [[Nb B]|[_ (t & B & ->)]]; [|destruct (G t) as (X & _); congruence]. eauto.
+        destruct (N a ta Ha) as [[Na A]|[_ (t & A & ->)]]; [|destruct (G t A) as (X & _); congruence].
+        destruct (N b tb Hb) as [[Nb B]|[_ (t & B & ->)]]; [|destruct (G t B) as (X & _); congruence]. eauto.
     + intros j H. destruct (Q2 j H) as (t & A & B). assert (j <> i) by (intros ->; apply in_occ_all in H; lia).
       exists t. split; [|exact B]. rewrite nth_upd_nth_other; auto.
     + intros a (j & t' & A & B & C). left. cbn in A. destruct (N j t' A) as [[_ A1]|[_ (t & A1 & ->)]].
       * exists j, t'. auto.
-      * destruct (G t) as (X & _). destruct C as [C|[C _]]; congruence.
+      * destruct (G t A1) as (X & _). destruct C as [C|[C _]]; congruence.
   - intros t Hn Hs [[K _]|[[_ (j & t' & A & B & C)]|[[K _]|[K _]]]]; try discriminate K.
     cbn in A. destruct (N j t' A) as [[Nj A1]|[_ (t0 & A1 & ->)]].
     + apply Nj. apply (T3 j i t' t A1 Hn); [destruct C as [C|[C _]]; congruence|exact Hs|exact B].
-    + destruct (G t0) as (X & _). destruct C as [C|[C _]]; congruence.
+    + destruct (G t0 A1) as (X & _). destruct C as [C|[C _]]; congruence.
 Qed.
 
 (* ------------------------------------------------------------------ qb_loop_timer_add *)
@@ -711,7 +711,7 @@ Proof.
   { intros s1 SH Z NE g.
     assert (I1 : inv s1) by (eapply inv_shrinks; eauto).
     assert (T1 : timers s1 = timers st) by (apply (sh_timers _ _ SH)).
-    destruct (inv_timer_clear i g s1 I1 Z (fun t => conj eq_refl (conj eq_refl eq_refl))) as [I2 NL].
+    destruct (inv_timer_clear i g s1 I1 Z (fun t _ => conj eq_refl (conj eq_refl eq_refl))) as [I2 NL].
     change (set_timers (upd_nth i g (timers (emit (EvDel 1 (t_uid t)) s1))) (emit (EvDel 1 (t_uid t)) s1))
       with (emit (EvDel 1 (t_uid t)) (set_timers (upd_nth i g (timers s1)) s1)).
     split.
